@@ -32,7 +32,9 @@ Inductive loc :=
 | LClaimed            (* startProcessing succeeded; on its way to a pool goroutine *)
 | LRunning (g : tid)  (* worker function running in g *)
 | LExited (g : tid)   (* worker function returned; g has not yet stored Finished *)
-| LFin (g : tid).     (* Finished stored; g closes the job *)
+| LFin (g : tid)      (* Finished stored; g closes the job *)
+| LAcked (g : tid)    (* the adapter acknowledged the delivery; g goes on to close the job *)
+| LAckFailed (g : tid). (* the adapter refused the acknowledgement: Close returns the error, the job stays Finished *)
 
 (* Events of the proven core. Thread-local data (the value a thread loaded before its
    compare-and-swap) is carried by the event; that it really is the value the thread loaded is
@@ -53,7 +55,8 @@ Inductive ev :=
 | EPurged (t : tid)                       (* PurgeValues handed the job to t *)
 | EWfEnter (g : tid)
 | EWfExit (g : tid)
-| ERetCloseNil (t : tid).                 (* handle.Close() returned nil *)
+| ERetCloseNil (t : tid)                  (* handle.Close() returned nil *)
+| EAck (g : tid) (ok : bool).             (* job.ack: Acknowledge(ackId) on the adapter returned ok *)
 
 Record jstate := mkJ {
   st : jstatus;
@@ -69,7 +72,8 @@ Record jstate := mkJ {
   signals : nat;
   nilCloses : nat;       (* Close calls that returned nil *)
   cancelledBeforeStart : bool; (* some closeStatus claim succeeded while starts = 0 *)
-  parsed : bool          (* built by parseToJob from a stored entry (no handle exists) *)
+  parsed : bool;         (* built by parseToJob from a stored entry (no handle exists) *)
+  acks : nat             (* successful acknowledgements *)
 }.
 
 Definition closeable (v : jstatus) : bool := negb (Nat.eqb v sProcessing || Nat.eqb v sClosed).
@@ -77,7 +81,8 @@ Definition closeable (v : jstatus) : bool := negb (Nat.eqb v sProcessing || Nat.
 Definition loc_eqb (a b : loc) : bool :=
   match a, b with
   | LNotPub x, LNotPub y | LRejected x, LRejected y | LPurged x, LPurged y | LDeq x, LDeq y
-  | LRunning x, LRunning y | LExited x, LExited y | LFin x, LFin y => Nat.eqb x y
+  | LRunning x, LRunning y | LExited x, LExited y | LFin x, LFin y
+  | LAcked x, LAcked y | LAckFailed x, LAckFailed y => Nat.eqb x y
   | LInQ, LInQ | LSkipped, LSkipped | LClaimed, LClaimed => true
   | _, _ => false
   end.
@@ -91,11 +96,11 @@ Definition opt_is (o : option tid) (t : tid) : bool :=
   match o with Some x => Nat.eqb x t | None => false end.
 
 Definition init_state : jstate :=
-  mkJ sCreated (LNotPub 0) 0 false None None 0 0 0 0 0 false false.
+  mkJ sCreated (LNotPub 0) 0 false None None 0 0 0 0 0 false false 0.
 
 Definition with_st_loc (s : jstate) (v : jstatus) (l : loc) : jstate :=
   mkJ v l (wg s) (hasWg s) (winner s) (donep s)
-      (starts s) (exits s) (closes s) (signals s) (nilCloses s) (cancelledBeforeStart s) (parsed s).
+      (starts s) (exits s) (closes s) (signals s) (nilCloses s) (cancelledBeforeStart s) (parsed s) (acks s).
 
 (* [jstep s e] = Some s' when e is enabled in s and consistent with the values it observed *)
 Definition jstep (s : jstate) (e : ev) : option jstate :=
@@ -104,7 +109,7 @@ Definition jstep (s : jstate) (e : ev) : option jstate :=
       (* only as the very first event *)
       if Nat.eqb (st s) sCreated && loc_eqb (where_ s) (LNotPub 0) && Nat.eqb (wg s) 0 && negb (hasWg s)
          && Nat.eqb (starts s + closes s + signals s) 0
-      then Some (mkJ sCreated (LNotPub t) (if w then 1 else 0) w None None 0 0 0 0 0 false false)
+      then Some (mkJ sCreated (LNotPub t) (if w then 1 else 0) w None None 0 0 0 0 0 false false 0)
       else None
   | EStoreQueued t =>
       if loc_eqb (where_ s) (LNotPub t) && Nat.eqb (st s) sCreated
@@ -112,7 +117,7 @@ Definition jstep (s : jstate) (e : ev) : option jstate :=
   | EStoreParse t v =>
       if loc_eqb (where_ s) (LNotPub t) && Nat.eqb (st s) sCreated && Nat.leb v sClosed
       then Some (mkJ v (LDeq t) (wg s) (hasWg s) (winner s) (donep s)
-                     (starts s) (exits s) (closes s) (signals s) (nilCloses s) (cancelledBeforeStart s) true)
+                     (starts s) (exits s) (closes s) (signals s) (nilCloses s) (cancelledBeforeStart s) true (acks s))
       else None
   | EStoreFinished g =>
       if loc_eqb (where_ s) (LExited g) then Some (with_st_loc s sFinished (LFin g)) else None
@@ -132,7 +137,7 @@ Definition jstep (s : jstate) (e : ev) : option jstate :=
       then (if ok
             then Some (mkJ sClosed (if published (where_ s) then where_ s else LRejected t) (wg s) (hasWg s) (Some t) (donep s)
                            (starts s) (exits s) (S (closes s)) (signals s) (nilCloses s)
-                           (cancelledBeforeStart s || Nat.eqb (starts s) 0) (parsed s))
+                           (cancelledBeforeStart s || Nat.eqb (starts s) 0) (parsed s) (acks s))
             else Some s)
       else None
   | ESignal t =>
@@ -142,11 +147,11 @@ Definition jstep (s : jstate) (e : ev) : option jstate :=
                   | 0 => None   (* sync: negative WaitGroup counter — the real code panics *)
                   | S n => Some (mkJ (st s) (where_ s) n (hasWg s) None (Some t)
                                      (starts s) (exits s) (closes s) (S (signals s)) (nilCloses s)
-                                     (cancelledBeforeStart s) (parsed s))
+                                     (cancelledBeforeStart s) (parsed s) (acks s))
                   end)
             else Some (mkJ (st s) (where_ s) (wg s) (hasWg s) None (Some t)
                            (starts s) (exits s) (closes s) (S (signals s)) (nilCloses s)
-                           (cancelledBeforeStart s) (parsed s)))
+                           (cancelledBeforeStart s) (parsed s) (acks s)))
       else None
   | EWait t =>
       if hasWg s && Nat.eqb (wg s) 0 then Some s else None
@@ -160,17 +165,23 @@ Definition jstep (s : jstate) (e : ev) : option jstate :=
   | EWfEnter g =>
       if loc_eqb (where_ s) LClaimed
       then Some (mkJ (st s) (LRunning g) (wg s) (hasWg s) (winner s) (donep s)
-                     (S (starts s)) (exits s) (closes s) (signals s) (nilCloses s) (cancelledBeforeStart s) (parsed s))
+                     (S (starts s)) (exits s) (closes s) (signals s) (nilCloses s) (cancelledBeforeStart s) (parsed s) (acks s))
       else None
   | EWfExit g =>
       if loc_eqb (where_ s) (LRunning g)
       then Some (mkJ (st s) (LExited g) (wg s) (hasWg s) (winner s) (donep s)
-                     (starts s) (S (exits s)) (closes s) (signals s) (nilCloses s) (cancelledBeforeStart s) (parsed s))
+                     (starts s) (S (exits s)) (closes s) (signals s) (nilCloses s) (cancelledBeforeStart s) (parsed s) (acks s))
       else None
   | ERetCloseNil t =>
       if opt_is (donep s) t
       then Some (mkJ (st s) (where_ s) (wg s) (hasWg s) (winner s) None
-                     (starts s) (exits s) (closes s) (signals s) (S (nilCloses s)) (cancelledBeforeStart s) (parsed s))
+                     (starts s) (exits s) (closes s) (signals s) (S (nilCloses s)) (cancelledBeforeStart s) (parsed s) (acks s))
+      else None
+  | EAck g ok =>
+      if loc_eqb (where_ s) (LFin g) && Nat.eqb (st s) sFinished
+      then Some (mkJ (st s) (if ok then LAcked g else LAckFailed g) (wg s) (hasWg s) (winner s) (donep s)
+                     (starts s) (exits s) (closes s) (signals s) (nilCloses s) (cancelledBeforeStart s) (parsed s)
+                     (if ok then S (acks s) else acks s))
       else None
   end.
 
